@@ -146,6 +146,13 @@ def sym_model(s, idx):
 
 
 def lines_of(case, idx, want_den):
+    if "chain" in case:
+        ch = case["chain"]
+        rr = [str(len(case["runs"]))]
+        for r in case["runs"]:
+            rr.append(("%s 0 0 %d %s" % (r["mode"], len(r["ex"]), " ".join(r["ex"]))).strip())
+        return (" ".join(["CHAIN", sym_harness(ch["f"]), sym_harness(ch["c"]), str(ch["n"])] + rr),
+                " ".join(["CHAIN", sym_model(ch["f"], idx), sym_model(ch["c"], idx), str(ch["n"])] + rr))
     h = ["%d %d %d %d" % (case["ncats"], case["nrows"], case["best"][0], case["best"][1])]
     m = [h[0] + " %d" % (1 if want_den else 0)]
     hc, mc = [str(len(case["cells"]))], [str(len(case["cells"]))]
@@ -486,6 +493,55 @@ def gen_lazy_case(rnd):
             "poison_arg": args.index(POISON), "taken_arg": (args.index(T) if T in args else None)}
 
 
+I32_MIN, I32_MAX = -2 ** 31, 2 ** 31 - 1
+
+
+def chain_expect(kind, c, x, n):
+    """F(F(...F(x, c)..., c), c) nested n deep, computed by plain iteration (binary64 / saturating
+    int32 arithmetic as documented for the primitives)"""
+    import math
+    if kind.startswith("real"):
+        v = x
+        for _ in range(n):
+            v = v + c if kind == "real_add" else v - c
+            if not math.isfinite(v):
+                return "v"
+        return dtok(v)
+    v = x
+    for _ in range(n):
+        v = max(I32_MIN, min(I32_MAX, v + c if kind == "int_add" else v - c))
+    return "i:%d" % v
+
+
+def gen_chain_case(rnd, n):
+    """a linear chain nested n deep over a real or an integer primitive, non-trivial leaf (the
+    example's feature), so that the value depends on every level"""
+    kind = rnd.choice(["real_add", "real_sub", "int_add", "int_sub"])
+    if kind.startswith("real"):
+        cval = rnd.choice([1.0, 0.5, 0.1, 3.0])
+        csym = {"k": "KD", "text": repr(cval), "cat": 0}
+        xs = [rnd.choice([0.0, 1.5, -7.25, 1e6]) for _ in range(2)]
+        exs = [[dtok(x)] for x in xs]
+    else:
+        cval = rnd.choice([1, 3, 100000])
+        csym = {"k": "KI", "val": cval, "cat": 0}
+        xs = [rnd.choice([0, -5, 2 ** 31 - 10, -2 ** 31 + 3]) for _ in range(2)]
+        exs = [["i:%d" % x] for x in xs]
+    runs, expect = [], []
+    for x, ex in zip(xs, exs):
+        runs.append({"mode": rnd.choice("esL"), "l": [0, 0], "ex": ex})
+        expect.append(chain_expect(kind, cval, x, n))
+    return {"ncats": 1, "nrows": n + 2, "best": [0, 0], "cells": [], "runs": runs, "family": "deepchain",
+            "chain": {"f": P(kind, [0]), "c": csym, "n": n}, "expect": expect}
+
+
+def chain_depths(ck):
+    d = [100, 1000, 4095, 4096, 4097, 5000, 10000, 20000]
+    if ck.thorough:
+        d += [255, 256, 257, 2 ** 15 - 1, 2 ** 15, 2 ** 15 + 1, 40000, 65000, 65533]
+    return d
+
+
 def long_example(lg, r):
     tk = r in lg["taken"]
     out = []
@@ -633,6 +689,8 @@ DEN_LIMIT = 4000
 
 
 def want_den(case):
+    if "chain" in case:
+        return True
     sizes = tree_sizes(case)
     roots = {tuple(case["best"])} | {tuple(r["l"]) for r in case["runs"]}
     return max(sizes.get(l, 0) for l in roots) <= DEN_LIMIT
@@ -663,7 +721,7 @@ def expected_cats(case):
 
 
 def strip_case(case):
-    return {k: case[k] for k in ("ncats", "nrows", "best", "cells", "runs", "family", "expect", "what", "how", "base", "poison_arg", "taken_arg", "long")
+    return {k: case[k] for k in ("ncats", "nrows", "best", "cells", "runs", "family", "expect", "what", "how", "base", "poison_arg", "taken_arg", "long", "chain")
             if k in case}
 
 
@@ -686,6 +744,10 @@ def generate(ck):
         base.append(gen_random_case(rnd, "small", full_rows=True))
     for _ in range(150 * n):
         base.append(gen_random_case(rnd, "medium", full_rows=True))
+    for depth in chain_depths(ck):
+        cases.append(gen_chain_case(rnd, depth))
+        if depth <= 300 or ck.thorough and depth <= 1000:
+            pass
     for taken, hn in long_schedules(ck):
         cases.append(gen_long_case(rnd, taken, hn))
     for b in base:
@@ -754,6 +816,9 @@ def judge(cases, env, sink, hist):
             continue
         if "long" in c:
             judge_long(c, ho, mo, rep, sink, hist)
+            continue
+        if "chain" in c:
+            judge_chain(c, ho, mo, rep, sink, hist)
             continue
         head, hruns = parse_out(ho)
         mhead, mruns = parse_out(mo)
@@ -870,6 +935,32 @@ def judge(cases, env, sink, hist):
             sink.sample({"family": c["family"], "harness_line": hl[k][:600], "impl": ho[:400], "model": mo[:400]})
 
 
+def judge_chain(c, ho, mo, rep, sink, hist):
+    """a chain nested n deep: O1 against den (accumulated from the leaf by the model driver) and
+    against the plain iteration of the documented arithmetic, O2 against a fresh interpreter"""
+    ch = c["chain"]
+    _, hruns = parse_out(ho)
+    _, mruns = parse_out(mo)
+    sink.nontriv("chain %s %d" % (ch["f"]["id"], ch["n"]))
+    desc = "%s chain nested %d deep (code length %d)" % (ch["f"]["id"], ch["n"], ch["n"] + 2)
+    for j, run_ in enumerate(c["runs"]):
+        hr, hf = hruns[j][0], hruns[j][1]
+        md = mruns[j][1]
+        hist["mode"][run_["mode"]] = hist["mode"].get(run_["mode"], 0) + 1
+        hist["outcome"]["judged-against-den"] = hist["outcome"].get("judged-against-den", 0) + 1
+        rj = dict(rep, run_index=j, mode=run_["mode"], chain_depth=ch["n"])
+        if md != c["expect"][j]:
+            sink.add_diff({"case": rep["harness_line"][:200], "run": j}, md, c["expect"][j],
+                          "den of the chain differs from the plain iteration (model or generator wrong)")
+        if hr != md:
+            sink.add_violation("denotation:deepchain", "%s: run %d (mode %s) on %s returns %s, the recursive evaluation "
+                               "of the active tree gives %s" % (desc, j, run_["mode"], run_["ex"], hr, md),
+                               dict(rj, got=hr, denotation=md))
+        if hf != "-" and hf != hr:
+            sink.add_violation("history:deepchain", "%s: run %d returns %s on the used object, %s on a fresh one"
+                               % (desc, j, hr, hf), dict(rj, got=hr, fresh=hf))
+
+
 def judge_long(c, ho, mo, rep, sink, hist):
     """one object run n times: every run was compared with a fresh interpreter inside the harness
     (O2); the runs on which the rare branch is taken are compared with the tree denotation (O1)"""
@@ -975,6 +1066,39 @@ def shrink(case, oracle, env, run_index):
     return cur
 
 
+def shrink_chain(case, env):
+    """bisect the nesting depth"""
+    def fails(c):
+        sink = Collect()
+        try:
+            judge([c], env, sink, {"family": {}, "mode": {}, "rows": {}, "cats": {}, "outcome": {}})
+        except Exception:
+            return False
+        return any("deepchain" in v["key"] or v["key"].startswith("sanitizer") for v in sink.violations)
+
+    def at(n):
+        ch = dict(case["chain"], n=n)
+        kind = ch["f"]["id"]
+        cval = float(ch["c"]["text"]) if ch["c"]["k"] == "KD" else ch["c"]["val"]
+        exp = []
+        for r in case["runs"]:
+            t = r["ex"][0]
+            x = int(t[2:]) if t[0] == "i" else struct.unpack("<d", struct.pack("<Q", int(t[2:], 16)))[0]
+            exp.append(chain_expect(kind, cval, x, n))
+        return dict(case, chain=ch, nrows=n + 2, expect=exp)
+    hi = case["chain"]["n"]
+    if not fails(at(hi)):
+        return None
+    lo = 0
+    while hi - lo > 1:
+        mid = (lo + hi) // 2
+        if fails(at(mid)):
+            hi = mid
+        else:
+            lo = mid
+    return at(hi)
+
+
 def shrink_pair(base, env):
     """layout oracle: shrink the base program while it and its unshared twin still disagree"""
     def fails(b):
@@ -1027,6 +1151,16 @@ def _retry(fn, *a):
 
 
 def run(ck):
+    # deep chains recurse ~3 C++ frames (and a few OCaml frames) per nesting level
+    try:
+        import resource
+        soft, hard = resource.getrlimit(resource.RLIMIT_STACK)
+        want = 1 << 30
+        if hard != resource.RLIM_INFINITY:
+            want = min(want, hard)
+        resource.setrlimit(resource.RLIMIT_STACK, (want, hard))
+    except (ImportError, ValueError, OSError, AttributeError):
+        pass
     L = _retry(vv.build_lib, "asan")
     idents, problems, regenerated = pc.regen_prims(L["snap"])
     ck.tie = "regenerated+correspondence" if regenerated else "correspondence"
@@ -1092,6 +1226,13 @@ def run(ck):
                                         "node) still give different results"}
             continue
         if len(rp.get("cases", [])) != 1 or "long" in rp["cases"][0]:
+            continue
+        if "chain" in rp["cases"][0]:
+            done.add(oracle)
+            small = shrink_chain(rp["cases"][0], env)
+            if small is not None:
+                rp["shrunk"] = {"cases": [strip_case(small)], "harness_line": lines_of(small, idx, True)[0],
+                                "note": "smallest nesting depth (by bisection) on which the oracle still fails"}
             continue
         done.add(oracle)
         small = shrink(rp["cases"][0], oracle, env, rp.get("run_index"))
